@@ -13,7 +13,7 @@ RULE = ("seeded well-formed sequences hugging both range limits (21..108) or mid
         "events / bar key; the driver checks that transposing back restores the original when nothing wrapped. "
         "Non-trivial: interval != 0 and at least one note.")
 PLAN = {"quick": {"cases": 6000, "jobs": 4, "timeout": 600},
-        "thorough": {"cases": 300000, "jobs": 16, "timeout": 3000, "budget_s": 420}}
+        "thorough": {"cases": 2000000, "jobs": 16, "timeout": 3000, "budget_s": 360}}
 FLOORS = {"quick": {"transpose.exact_shift.armed": 1500, "transpose.key_events.armed": 1500, "bar_transpose.bar_key.armed": 500,
                     "c14.wrapped": 1000, "c14.multiple_of_12_with_key": 150},
           "thorough": {"transpose.exact_shift.armed": 50000, "transpose.key_events.armed": 50000}}
